@@ -67,6 +67,7 @@ package convert
 //@     invariant g.Fields == result.Groups[$i1].Fields && g.Count == result.Groups[$i1].Count && len(pbr.Groups) == $i1 && $i1 < len(result.Groups)
 //@     invariant GroupsDone(pbr, result)
 //@     invariant forall j idx(pbr.Groups) :: arr(pbr.Groups[j].Fields) != arr(fields)
+//@   assert before append#2: groups_so_far_are_done: GroupsDone(pbr, result)
 
 //@ func [C13,C14] ToResult(pr) (r)
 //@   requires pr != nil && (forall j idx(pr.Groups) :: pr.Groups[j] != nil && (forall k idx(pr.Groups[j].Fields) :: pr.Groups[j].Fields[k] != nil))
